@@ -527,9 +527,18 @@ impl<'a> TypeHumanizer<'a> {
     // ─── Array ──────────────────────────────────────────────────────
 
     fn write_array_type<W: Write>(&mut self, inner: &LuaType, w: &mut W) -> fmt::Result {
+        // `T?[]`, `-1[]` and `fun() -> T[]` do not read back as an array of the inner type:
+        // the doc-type grammar only accepts `[]` after a primary type, so group those.
+        let needs_parens = array_base_needs_parens(inner);
         let saved = self.level;
         self.level = self.child_level();
+        if needs_parens {
+            w.write_char('(')?;
+        }
         self.write_type(inner, w)?;
+        if needs_parens {
+            w.write_char(')')?;
+        }
         self.level = saved;
         w.write_str("[]")
     }
@@ -691,7 +700,14 @@ impl<'a> TypeHumanizer<'a> {
                     self.write_type(field.1, w)?;
                 }
                 LuaMemberKey::Name(s) => {
-                    w.write_str(s)?;
+                    if is_plain_field_name(s) {
+                        w.write_str(s)?;
+                    } else {
+                        // not a name the doc-type grammar accepts as a field key: write `["..."]`
+                        w.write_str("[\"")?;
+                        write_hover_escape_string(s, w)?;
+                        w.write_str("\"]")?;
+                    }
                     w.write_str(": ")?;
                     self.write_type(field.1, w)?;
                 }
@@ -1223,6 +1239,38 @@ fn write_hover_escape_string<W: Write>(s: &str, w: &mut W) -> fmt::Result {
         }
     }
     Ok(())
+}
+
+/// Whether an array element type has to be parenthesised before `[]`: an optional type
+/// (it renders with a trailing `?`), a negative numeric literal (`-1[]` is `-(1[])`) and a
+/// function type (its return type would swallow the `[]`).
+fn array_base_needs_parens(inner: &LuaType) -> bool {
+    match inner {
+        LuaType::Union(union) => union.into_vec().iter().any(|ty| ty.is_nil()),
+        LuaType::IntegerConst(i) | LuaType::DocIntegerConst(i) => *i < 0,
+        LuaType::FloatConst(f) => f.is_sign_negative(),
+        LuaType::DocFunction(_) | LuaType::Signature(_) => true,
+        _ => false,
+    }
+}
+
+/// A record key that can be written bare in `{ key: type }`: an identifier that the doc lexer
+/// does not read as one of its own keywords.
+fn is_plain_field_name(name: &str) -> bool {
+    let mut chars = name.chars();
+    let Some(first) = chars.next() else {
+        return false;
+    };
+    if !(first.is_ascii_alphabetic() || first == '_') {
+        return false;
+    }
+    if !chars.all(|ch| ch.is_ascii_alphanumeric() || ch == '_') {
+        return false;
+    }
+    !matches!(
+        name,
+        "true" | "false" | "keyof" | "extends" | "as" | "in" | "and" | "or" | "else" | "readonly"
+    )
 }
 
 /// Depth-guard token. Just a marker type; actual depth tracking is done in
